@@ -121,6 +121,19 @@ CHECKS = {
         'technique': 'TLA+ design model (PluginChain) exhaustively checked + TLC-generated programs executed on the real plugin chain + '
                      'TLC trace validation (TraceChain) of the recorded hook-call logs',
     },
+    'C12': {
+        'text': 'Expected(request, route table, rewrite option) is written in TLA+ (TraceReverse over Target.tla ParseUrl / UrlAuthority and '
+                'the reference HTTP parser): some matching route decides, any of its URLs may be chosen (random.choice = nondeterminism of '
+                'the specification), connection to the URL host and port (default by scheme), path = the URL path, method / remaining '
+                'headers / body preserved, Host rewritten iff the option is on, response relayed unmodified, no match => 404 and no '
+                'connection, literal dynamic routes answered as is without connection. Route tables (static routes with 1..3 URLs '
+                'with/without port and path, http and https, IPv4/IPv6 literals, userinfo; dynamic URL and literal routes; overlapping '
+                'prefixes) x paths matching none/one/several x methods x bodies x both rewrite settings, one or two requests per '
+                'connection, run through the REAL handler + ReverseProxy; TLC decides each recorded connection.',
+        'design_ref': 'DESIGN.md section 6, C12',
+        'note': 'Trusted: TLC, SimNet. Route regexes are literal prefixes; for https upstreams only the connection attempt is observable.',
+        'technique': 'TLA+ Expected relation over a reference URL / HTTP parser (TraceReverse) deciding recorded reverse-proxy connections',
+    },
     'C13': {
         'text': 'Reference path resolution in TLA+ (StaticPath.tla: query stripped at the first ?, dot-segment stack machine, no '
                 'percent-decoding). Every path of up to 3 (quick) / 4 (thorough, sampled) segments over {file and directory names, ., .., '
